@@ -105,9 +105,8 @@ Definition RR7 (f m k : Z) (forcereduce recursive : bool) : option res :=
 (* lines 233-236: RationalReconstruction(a,b,x,m) *)
 Definition RR4 (x m : Z) : option res := ratrecon x m (Z.sqrt m) true.
 
-(* lines 237-245: RationalReconstruction(a,b,x,m,a_bound,b_bound), with the repair frag/C11.fix-1.diff:
-     bool res = ratrecon(a,b,x,m,(bound>a_bound?bound:a_bound),true,false);  return res && (b <= b_bound);
-   (the code as found drops the bool of ratrecon and returns  b <= b_bound  alone) *)
+(* lines 237-246: RationalReconstruction(a,b,x,m,a_bound,b_bound)   (commit 68125ac)
+     bool res = ratrecon(a,b,x,m,(bound>a_bound?bound:a_bound),true,false);  return res && (b <= b_bound); *)
 Definition RR6 (x m a_bound b_bound : Z) : option res :=
   let bound := Z.quot x b_bound in
   let k := if bound >? a_bound then bound else a_bound in
